@@ -17,6 +17,7 @@ THEOREMS = [
     "Mtv.Session.fresh_or_torn_start",
     "Mtv.Session.start_on_any_storage",
     "Mtv.Session.given_storage_is_used",
+    "Mtv.Session.resume_on_the_wire",
 ]
 RULE = ("operations on real files in a per-run scratch directory through session.NewFromFile(...).Store/Load and "
         "mtproto.NewMTProto: round trips on six path shapes (absolute, relative, ./name, bare name; missing directory), "
@@ -33,14 +34,21 @@ RULE = ("operations on real files in a per-run scratch directory through session
         "the JSON writer emits, alone / embedded / behind further backslashes, escaped forms of other host names, "
         "quotes, long names), "
         "histories on the real clock, every strict prefix of written files, files of "
-        "other shapes, restart on a present / missing / torn store; distinct = distinct operation lines; each is "
+        "other shapes, restart on a present / missing / torn store; the started client as the server sees it "
+        "(c12.wire: session stored with a 256-byte key and a hash field that is the key's id / 8 other bytes / of "
+        "another length / empty, store named by AuthKeyFile, a file loader or an in-memory storage; NewMTProto + "
+        "CreateConnection + one request against loopback listeners for the stored and the configured address; the "
+        "first frame is opened by an independent envelope reader holding only the stored key: it arrived at the "
+        "stored address, is not plain text, auth_key_id = SHA1(key)[12:20], decrypts, carries the stored salt and "
+        "the request); distinct = distinct operation lines; each is "
         "compared with the Lean model and judged by the property's own reading")
 
 
 def run(ctx):
     ctx.assumptions += [
         "encoding/json, encoding/base64, path/filepath.Split and the filesystem are modelled; agreement with them is sampled by the correspondence, not proved",
-        "the key exchange itself is not run here: that CreateConnection skips it iff the client is in the encrypted state is read from mtproto.go; the end-to-end resume against a scripted server belongs to the client-machine checks",
+        "the key exchange itself is not run here: that CreateConnection skips it iff the client is in the encrypted state is read from mtproto.go and observed for the first frame only (c12.wire: encrypted under the stored key on a store that holds a session, plain text on an empty one); the rest of the end-to-end resume against a scripted server belongs to the client-machine checks",
+        "SHA-1 is a parameter of resume_on_the_wire; the driver instantiates it with the executable Mtv.Crypto.sha1, compared with Go's on every c12.wire line",
     ]
     return vlib.generic_check(ctx, SUB, MODULES, THEOREMS, RULE)
 
